@@ -169,6 +169,7 @@ func cvbits(c *Ctx, d []byte, from, to int, pad bool, extra int) Event {
 }
 
 func runC07(c *Ctx) {
+	c.Conc = true // stateless calls are also replayed from several goroutines at once
 	r := c.Rng
 	// --- Base58: all byte strings up to length 2 (the property's exhaustive scope)
 	b58enc(c, nil, 0)
